@@ -2,7 +2,7 @@
 //!
 //! The real `KittyImageHandler` is driven through every history of
 //! draw / erase(Some) / erase(None) / handle(KittyImage ok|error) / handle(other) operations
-//! over seven images (1x1, 2x3, a strided crop, a re-allocated copy, an empty image, an image
+//! over eight images (1x1, 2x3, a strided crop, a crop taken after its parent was drawn, a re-allocated copy, an empty image, an image
 //! whose base64 payload is exactly 4096 bytes, a three-chunk image with a short last chunk) and
 //! four positions, to depth 3 without any deduplication and to depth 4 (quick) / 6 (thorough)
 //! deduplicated by (set of transmitted contents, reference terminal state). Every byte the handler writes is
@@ -21,7 +21,7 @@ use std::collections::{BTreeMap, BTreeSet, HashSet};
 use std::sync::atomic::{AtomicBool, AtomicU64, Ordering};
 use std::sync::Mutex;
 use surf_n_term::{
-    Image, ImageHandler, KittyImageHandler, Position, Shape, Size, SurfaceOwned, TerminalEvent, RGBA,
+    Image, ImageHandler, KittyImageHandler, Position, Shape, Size, Surface, SurfaceOwned, TerminalEvent, RGBA,
 };
 
 // --------------------------------------------------------------------------------------------
@@ -103,7 +103,15 @@ fn history_images() -> Vec<Img> {
     let e = plain("E", 0, 3, 0); // empty
     let f = plain("F", 16, 48, 100); // 768 px -> 3072 bytes -> base64 exactly 4096
     let g = plain("G", 29, 53, 1000); // 1537 px -> 6148 bytes -> base64 8200 = 4096 + 4096 + 8
-    let mut v = vec![a, b, c, d, e, f, g];
+    // a crop taken AFTER its parent has been used (anything an image object memoises on first use - its hash,
+    // say - exists by now and must not leak into what is derived from the object)
+    let _ = Surface::hash(&b.image);
+    {
+        let mut scratch = KittyImageHandler::new();
+        let _ = scratch.draw(&mut Vec::new(), &b.image, Position::new(0, 0));
+    }
+    let h = cropped("H", &b, 1, 2, 0, 2);
+    let mut v = vec![a, b, c, d, e, f, g, h];
     assign_contents(&mut v);
     v
 }
